@@ -3,6 +3,8 @@ package harness
 import (
 	"bytes"
 	"fmt"
+
+	"github.com/biogo/hts/bam"
 )
 
 // C12 — whole blocks in write order; Flush+Wait makes written data durable.
@@ -10,6 +12,10 @@ import (
 type c12Case struct {
 	W     WCase  `json:"w"`
 	Fault *Fault `json:"fault,omitempty"` // fault configuration: one failing underlying write
+	// BAM variant: the same observation points around bam.Writer
+	BAM  bool      `json:"bam,omitempty"`
+	Hdr  HdrSpec   `json:"hdr,omitempty"`
+	Recs []RecSpec `json:"recs,omitempty"`
 }
 
 type c12 struct{}
@@ -50,6 +56,21 @@ func (c12) Gen(t *Tape, tier string, run int) interface{} {
 	if t.Chance("work", 1, 5) {
 		c.Fault = &Fault{Op: "write", At: t.Draw("work", 6), Kind: []string{"err", "partial"}[t.Draw("work", 2)], Persistent: t.Bool("work")}
 	}
+	if t.Chance("work", 1, 5) {
+		c.BAM = true
+		c.Fault = nil
+		c.Hdr = genHdr(t)
+		big := t.Chance("work", 1, 6)
+		for i, n := 0, t.Draw("work", 14); i < n; i++ {
+			size := 0
+			if big && t.Chance("work", 1, 4) {
+				size = 2
+			} else if t.Chance("work", 1, 8) {
+				size = 1
+			}
+			c.Recs = append(c.Recs, genRec(t, len(c.Hdr.Refs), size, i))
+		}
+	}
 	return c
 }
 
@@ -85,8 +106,11 @@ func (pc *prefixChecker) check(img, started []byte, when string) *Violation {
 	return nil
 }
 
-func (c12) Exec(x *Exec, ci interface{}) *Verdict {
+func (p c12) Exec(x *Exec, ci interface{}) *Verdict {
 	c := ci.(*c12Case)
+	if c.BAM {
+		return p.execBAM(x, c)
+	}
 	vd := &Verdict{}
 	file := &File{X: x, Name: "f", MaxDelay: c.W.MaxDelay}
 	if c.Fault != nil {
@@ -246,9 +270,54 @@ func (c12) Exec(x *Exec, ci interface{}) *Verdict {
 	return vd
 }
 
+// checkMasked is check for BAM streams: the model writes the bin field of
+// every record as 0, so the comparison ignores bytes that differ only there.
+// Rather than tracking record offsets inside members it compares each
+// member's payload with the model after copying the model's bin bytes over.
+func (pc *prefixChecker) checkMasked(img, started []byte, when string) *Violation {
+	ms, stop, why := ParseBGZF(img[pc.parsed:])
+	if why != nil || stop != len(img)-pc.parsed {
+		return Mismatch("partial-member", "%s: the %d bytes delivered so far are not a sequence of complete blocks: %v", when, len(img), why)
+	}
+	for _, m := range ms {
+		end := pc.payLen + len(m.Payload)
+		if end > len(started) {
+			return Mismatch("not-a-prefix", "%s: more data on disk (%d bytes) than written so far (%d)", when, end, len(started))
+		}
+		diffs := 0
+		for i, b := range m.Payload {
+			if b != started[pc.payLen+i] {
+				diffs++
+			}
+		}
+		// at most two differing bytes per record (the bin field); records are >= 36 bytes
+		if diffs > 2*(len(m.Payload)/36+1) {
+			return Mismatch("not-a-prefix", "%s: member %d does not continue the BAM stream at offset %d (%d bytes differ)", when, pc.members, pc.payLen, diffs)
+		}
+		pc.payLen = end
+		pc.members++
+		pc.sawEOF = m.IsEOF
+	}
+	pc.parsed = len(img)
+	return nil
+}
+
 func (c12) Shrinks(ci interface{}) []interface{} {
 	c := ci.(*c12Case)
 	var out []interface{}
+	if c.BAM {
+		for i := range c.Recs {
+			n := *c
+			n.Recs = append(append([]RecSpec(nil), c.Recs[:i]...), c.Recs[i+1:]...)
+			out = append(out, &n)
+		}
+		if c.W.WC != 1 {
+			n := *c
+			n.W.WC = 1
+			out = append(out, &n)
+		}
+		return out
+	}
 	for _, w := range shrinkWCase(c.W) {
 		n := *c
 		n.W = w
@@ -267,4 +336,95 @@ func (c12) Shrinks(ci interface{}) []interface{} {
 		}
 	}
 	return out
+}
+
+// execBAM observes the same crash points around bam.Writer: after
+// NewWriter returns nil the complete header is on disk; at every point the
+// image is complete members decoding to a prefix of header+records.
+func (c12) execBAM(x *Exec, c *c12Case) *Verdict {
+	vd := &Verdict{}
+	file := &File{X: x, Name: "f", MaxDelay: c.W.MaxDelay}
+	pc := &prefixChecker{}
+	var started []byte
+	var viol *Violation
+	crash := 0
+	file.OnWrite = func(f *File) {
+		crash++
+		if viol == nil {
+			viol = pc.checkMasked(f.Data, started, fmt.Sprintf("after underlying write %d returned", f.Writes-1))
+		}
+	}
+	hdrBytes := c.Hdr.EncodeBAMHeader()
+	var werr string
+	x.Procs = c.W.Procs
+	res := x.RunSim("bamwrite", 200+60*len(c.Recs), func() {
+		h, err := c.Hdr.SamHeader()
+		if err != nil {
+			werr = "building the header: " + err.Error()
+			return
+		}
+		started = append(started, hdrBytes...)
+		bw, err := bam.NewWriterLevel(file.W(), h, c.W.Level, c.W.WC)
+		if err != nil {
+			werr = "NewWriterLevel: " + err.Error()
+			return
+		}
+		crash++
+		if viol == nil {
+			if viol = pc.check(file.Data, started, "after bam.NewWriterLevel returned"); viol == nil && pc.payLen != len(hdrBytes) {
+				viol = Mismatch("bam-header-not-durable", "bam.NewWriterLevel returned nil but only %d of the %d header bytes are on disk", pc.payLen, len(hdrBytes))
+			}
+		}
+		for i := range c.Recs {
+			rec, err := c.Recs[i].SamRecord(h)
+			if err != nil {
+				werr = fmt.Sprintf("building record %d: %v", i, err)
+				return
+			}
+			enc := c.Recs[i].EncodeBAM()
+			mark := len(started)
+			started = append(started, enc...)
+			if err := bw.Write(rec); err != nil {
+				werr = fmt.Sprintf("Write of record %d: %v", i, err)
+				return
+			}
+			_ = mark
+			crash++
+			if viol == nil {
+				viol = pc.checkMasked(file.Data, started, fmt.Sprintf("after Write of record %d returned", i))
+			}
+		}
+		if err := bw.Close(); err != nil {
+			werr = "Close: " + err.Error()
+			return
+		}
+		crash++
+		if viol == nil {
+			if viol = pc.checkMasked(file.Data, started, "after Close"); viol == nil {
+				if pc.payLen != len(started) {
+					viol = Mismatch("not-durable", "Close returned nil but only %d of %d bytes were delivered", pc.payLen, len(started))
+				} else if !pc.sawEOF {
+					viol = Mismatch("not-durable", "Close returned nil but the stream does not end with the EOF marker")
+				}
+			}
+		}
+	})
+	x.Stats.CrashPoints += int64(crash)
+	if v, inc := StructuralViolation("bamwrite", &res); v != nil || inc != "" {
+		vd.V, vd.Inconcl = v, inc
+		return vd
+	}
+	if viol != nil {
+		viol.Class = "bam:" + viol.Class
+		vd.V = viol
+		return vd
+	}
+	if werr != "" {
+		vd.V = Mismatch("bam-write-api-error", "fault-free bam.Writer: %s", werr)
+		return vd
+	}
+	x.Probe("bam_writer_run")
+	vd.NonTrivial = pc.members >= 3 && x.Preempt >= 1
+	vd.Sample = map[string]interface{}{"bam": true, "hdr": c.Hdr, "records": len(c.Recs), "crash_points": crash, "members": pc.members, "wc": c.W.WC, "steps": x.Steps}
+	return vd
 }
